@@ -43,3 +43,61 @@ package writer
 //@   ensures [update-action] implies(!uf("hasTopObject", bool, rawJson, INDEX_TOP_STR) && !uf("hasTopObject", bool, rawJson, CREATE_TOP_STR) && uf("hasTopObject", bool, rawJson, UPDATE_TOP_STR), result0 == UPDATE)
 //@   ensures [anything-else-is-rejected] implies(!uf("hasTopObject", bool, rawJson, INDEX_TOP_STR) && !uf("hasTopObject", bool, rawJson, CREATE_TOP_STR) && !uf("hasTopObject", bool, rawJson, UPDATE_TOP_STR), result0 == DELETE)
 //@ end
+
+// C15 (an item reported as created is stored) and C16 (an event keeps the time
+// it carried): ProcessIndexRequestPle stores one batch of parsed events.
+//  - HandleBulkBody tags every event with the index name of its action line
+//    and calls this function with that same name, so the batch is rejected as
+//    "index mismatch" only for an event tagged with a DIFFERENT name than the
+//    one the caller passed (not the alias-resolved name: events addressed to
+//    an alias carry the alias).
+//  - the event time is read from the protocol's own field: span indexes
+//    (jaeger-*) carry it in startTimeMillis.  The field is chosen from the
+//    resolved index name BEFORE any event time is read (ghost pleSpan: -1 not
+//    decided yet, 1 span index, 0 other), and the arrival time is used only
+//    when the event carries no time.
+//@ ghostdecl pleSpan int
+//@ func ProcessIndexRequestPle
+//@   props C15 C16
+//@   mode int
+//@   assumecalleerequires
+//@   ghostinit ghost(0, "pleSpan") == -1
+//@   site call utils.TeeErrorf #1:
+//@     assert [batch-rejected-only-for-an-event-tagged-with-another-name] ple.indexName != indexNameIn
+//@   site callret strings.HasPrefix #1:
+//@     assert [span-index-decided-from-the-resolved-name] arg0 == indexNameConverted && arg1 == "jaeger-"
+//@     ghostset ghost(0, "pleSpan") = ite(result, 1, 0)
+//@   loop 2:
+//@     invariant [time-field-stays-chosen] ghost(0, "pleSpan") != -1 && implies(ghost(0, "pleSpan") == 1, tsKey == "startTimeMillis")
+//@   site call utils.ExtractTimeStamp #1:
+//@     assert [time-field-chosen-before-times-are-read] ghost(0, "pleSpan") != -1
+//@     assert [span-time-read-from-startTimeMillis] implies(ghost(0, "pleSpan") == 1, *arg1 == "startTimeMillis")
+//@   site call ple.SetTimestamp #2:
+//@     assert [arrival-time-only-for-an-event-without-time] ple.timestampMillis == 0 && arg1 == tsNow
+//@   site call writer.AddEntryToInMemBuf #1:
+//@     assert [stored-under-the-resolved-index] arg1 == indexNameConverted && arg3 == docType && samebase(arg8, pleArray) && len(arg8) == len(pleArray)
+//@ end
+
+// C19 (a client-supplied name cannot reach files outside the data directory):
+// the delete path builds  <data>/<host>/final/<name>/  by concatenation
+// (writer.getActiveBaseDirVTable) and hands it to os.RemoveAll, so the ONLY
+// thing that confines the name is that it is a registered index of the
+// requesting organisation (registered names passed the name check at
+// creation).  Every name that reaches the segment/segstore/metadata removal was
+// found present by IsVirtualTablePresent — that very name, in that iteration.
+// (C13: and the in-memory metadata is removed for the requesting organisation.)
+//@ ghostdecl idxPresent int
+//@ func deleteIndex
+//@   props C19 C13
+//@   assumecalleerequires
+//@   ghostinit ghost(0, "idxPresent") == 0
+//@   site callret vtable.IsVirtualTablePresent #1:
+//@     assert [presence-checked-for-the-name-being-deleted] *arg0 == indexName && arg1 == myid
+//@     ghostset ghost(0, "idxPresent") = ite(result, 1, 0)
+//@   site call writer.DeleteSegmentsForIndex #1:
+//@     assert [only-a-registered-index-reaches-the-file-removal] ghost(0, "idxPresent") == 1 && arg0 == indexName
+//@   site call writer.DeleteVirtualTableSegStore #1:
+//@     assert [only-a-registered-index-reaches-the-directory-removal] ghost(0, "idxPresent") == 1 && arg0 == indexName
+//@   site call metadata.DeleteVirtualTable #1:
+//@     assert [metadata-removed-for-the-requesting-organisation] ghost(0, "idxPresent") == 1 && arg0 == indexName && arg1 == myid
+//@ end
